@@ -9,6 +9,7 @@
 //       of child steps is released. Blocking calls of the parent are emulated (never block in the
 //       kernel), so "nobody can make a step" is detected as DEADLOCK by construction. Time is simulated.
 #include <dirent.h>
+#include <stdio_ext.h>
 #include <errno.h>
 #include <fcntl.h>
 #include <poll.h>
@@ -84,6 +85,7 @@ struct Sim {
   int speed = 1; // 0 starved child, 1 normal, 2 eager child
   uint32_t eintr_den = 0, eagain_den = 0, clamp_den = 0, stall_den = 0;
   size_t pipe_capacity = 0;
+  bool expect_exec_failure = false; // the command does not exist: the forked child leaves through phosg's own error path
   unsigned close_fd0 = 0; // bit mask: the calling process has no descriptor 0 and/or 1 (daemon): pipe() hands those out
   uint64_t step_budget = 40000;
   uint64_t call_budget = 150000;
@@ -341,8 +343,14 @@ pid_t __wrap_fork(void) {
   c.alive = true;
   Reply hello;
   if (!real_read_all(c.ctl, &hello, sizeof(hello))) {
-    // exec failed (phosg's child branch does _exit(1)): not a simulation any more
-    harness_bug("the scripted child did not start (exec of vsim-child failed?)");
+    // exec failed: phosg's child branch has left through _exit(1) (all its descriptors are closed)
+    if (!g.expect_exec_failure) harness_bug("the scripted child did not start (exec of vsim-child failed?)");
+    memset(&hello, 0, sizeof(hello));
+    hello.read_hash = 0xCBF29CE484222325ULL; // hash of "nothing read"
+    c.death_kind = 1;
+    c.death_value = 1;
+    wait_zombie();
+    VS_PROBE("exec_failed_in_child");
   }
   c.last = hello;
   ev("fork");
@@ -924,6 +932,19 @@ void scen_run_process() {
 
   std::set<int> fds_before = open_fds();
   std::vector<string> cmd = {g_child_path, s.text};
+  // one run in sixteen: the program does not exist. The forked child must leave without touching the
+  // caller's state - in particular without flushing the stdio buffers it inherited, which at that point
+  // would go into the pipes. The caller has unflushed text pending in stdout to make that visible.
+  bool exec_fails = choose(16, "exec.fails") == 15;
+  if (exec_fails) {
+    cmd[0] = "/nonexistent/vsim-child-does-not-exist";
+    g.expect_exec_failure = true;
+    s.family = "exec_fails";
+    s.w1 = s.w2 = 0;
+    s.reads_to_eof = false;
+    fflush(stdout);
+    fputs("UNFLUSHED TEXT OF THE CALLING PROCESS", stdout);
+  }
   phosg::SubprocessResult res;
   bool threw = false;
   string what;
@@ -940,6 +961,7 @@ void scen_run_process() {
     }
     g.armed = false;
   }
+  if (exec_fails) __fpurge(stdout); // drop the marker text again
   set_context("");
   uint64_t t_end = g.clock;
   add_sim_time_us(0);
@@ -1255,7 +1277,7 @@ int main(int argc, char** argv) {
       {"child program", "stub: vsim/child.c, a scripted peer that makes one non-blocking step per simulator command"},
       {"scheduling between parent and child, clock, poll timeouts, EINTR/EAGAIN/short transfers", "simulator (link-time wrappers in engines/sim_proc.cc)"}};
   e.expected_probes = {"payload_larger_than_pipe", "output_larger_than_pipe", "clock_jumped_over_child_sleep", "poll_timed_out", "blocking_waitpid", "timeout_killed_child", "check_threw_on_nonzero_status",
-      "child_died_by_own_signal", "child_exited_with_unread_output_in_pipe", "communicate_with_deadline_returned", "communicate_without_deadline_returned", "communicate_deadline_passed", "parent_busy_wait_skipped", "lifecycle_waited", "destructor_killed_running_child", "destructor_found_child_exited", "run_process_called_repeatedly", "grandchild_kept_pipes_open", "sigkill_after_ignored_sigterm", "destructor_ended_running_child", "caller_without_descriptor_0", "caller_without_descriptor_1"};
+      "child_died_by_own_signal", "child_exited_with_unread_output_in_pipe", "communicate_with_deadline_returned", "communicate_without_deadline_returned", "communicate_deadline_passed", "parent_busy_wait_skipped", "lifecycle_waited", "destructor_killed_running_child", "destructor_found_child_exited", "run_process_called_repeatedly", "grandchild_kept_pipes_open", "sigkill_after_ignored_sigterm", "destructor_ended_running_child", "caller_without_descriptor_0", "caller_without_descriptor_1", "exec_failed_in_child"};
   e.expected_faults = {"EINTR@poll", "EINTR@waitpid", "spurious_EAGAIN@read", "spurious_EAGAIN@write", "short_read", "short_write", "parent_stall"};
   return driver_main(argc, argv, e);
 }
